@@ -342,7 +342,7 @@ def plan_c01(prop, tier, seed, t0):
     return core_check(prop, tier, seed, t0, over, explore=[("mixed", 48, 1500), ("data", 24, 1500), ("consumers", 24, 1500)], caps=(16, 1, 2),
                       extra_scenarios=lambda quick, sd: extra(quick, sd)
                       + cancel_scenarios(sd, kinds={"Pull", "Ack", "ModAck", "ModAck30", "Publish", "PublishBig"}, quick=quick)
-                      + refused_next_to_live_scenarios(sd, quick),
+                      + refused_next_to_live_scenarios(sd, quick) + twins_scenarios(sd, quick) + idle_scenarios(sd, quick),
                       thorough={"mc": dict(MaxOps=7, MaxMsgs=3)}, turns=True)
 
 
@@ -350,7 +350,7 @@ def plan_c02(prop, tier, seed, t0):
     over = dict(AckRefs={1, 2, 99}, ModSecs={0}, Advances={1, 2}, MaxOps=6, MaxNow=6)
     return core_check(prop, tier, seed, t0, over, explore=[("data", 48, 1500)],
                       extra_scenarios=lambda quick, sd: stream_ctrl_scenarios(sd, quick)
-                      + cancel_scenarios(sd, kinds={"Pull", "Ack"}, quick=quick) + big_batch_scenarios(sd, quick),
+                      + cancel_scenarios(sd, kinds={"Pull", "Ack"}, quick=quick) + big_batch_scenarios(sd, quick) + twins_scenarios(sd, quick),
                       thorough={"mc": dict(MaxOps=7, MaxMsgs=3, AckRefs={1, 2, 3, 99})})
 
 
@@ -486,6 +486,86 @@ def ack_deadline_scenarios(seed, quick):
     return out
 
 
+def twins_scenarios(seed, quick):
+    """Two topics with two subscriptions each, used in lock step: whatever happens to one subscription
+    (acks, nacks, expiry, deletion, deletion of its topic) leaves the others exactly as they were."""
+    out = []
+    S3, S4 = "projects/p1/subscriptions/s3", "projects/p1/subscriptions/s4"
+    for k in range(4 if quick else 16):
+        steps = [call(1, op="CreateTopic", name=T1), call(1, op="CreateTopic", name=T2),
+                 call(1, op="CreateSub", name=S1, topic=T1, ack=10), call(1, op="CreateSub", name=S2, topic=T1, ack=10 + 5 * (k % 2)),
+                 call(1, op="CreateSub", name=S3, topic=T2, ack=10), call(1, op="CreateSub", name=S4, topic=T2, ack=20)]
+        for j in range(3):
+            steps += [call(2, op="Publish", topic=T1, msgs=[{"p": "tw%d-a%d" % (k, j)}]),
+                      call(2, op="Publish", topic=T2, msgs=[{"p": "tw%d-b%d" % (k, j)}, {"p": "tw%d-c%d" % (k, j)}])]
+        steps += [call(3, op="Pull", sub=S1, max=2, ri=True), call(3, op="Pull", sub=S2, max=2, ri=True),
+                  call(3, op="Pull", sub=S3, max=3, ri=True), call(3, op="Pull", sub=S4, max=1, ri=True),
+                  {"do": "advance", "ms": 1000 + 700 * (k % 3)}]
+        variants = [
+            [call(4, op="Ack", sub=S1, acks=[{"d": 1}, {"d": 2}]), call(4, op="ModAck", sub=S3, acks=[{"d": 1}], secs=0)],
+            [call(4, op="ModAck", sub=S2, acks=[{"d": 1}], secs=40), call(4, op="DeleteSub", name=S3)],
+            [call(4, op="DeleteTopic", name=T2), call(4, op="Ack", sub=S3, acks=[{"d": 2}])],
+            [call(4, op="DeleteSub", name=S1), call(4, op="CreateSub", name=S1, topic=T2, ack=10),
+             call(4, op="Publish", topic=T2, msgs=[{"p": "tw%d-late" % k}])],
+        ]
+        steps += variants[k % 4]
+        steps += [{"do": "advance", "ms": 9500}, call(5, op="Pull", sub=S1, max=10, ri=True), call(5, op="Pull", sub=S2, max=10, ri=True),
+                  call(5, op="Pull", sub=S3, max=10, ri=True), call(5, op="Pull", sub=S4, max=10, ri=True),
+                  {"do": "advance", "ms": 12000}, call(5, op="Pull", sub=S1, max=10, ri=True), call(5, op="Pull", sub=S2, max=10, ri=True),
+                  call(5, op="Pull", sub=S3, max=10, ri=True), call(5, op="Pull", sub=S4, max=10, ri=True),
+                  call(5, op="ListTopicSubs", topic=T1, size=0, token=""), call(5, op="ListSubs", project="projects/p1", size=0, token=""),
+                  {"do": "drain", "c": 9}]
+        out.append(scn("twins-%d" % k, steps, seed=seed * 100 + k, phase=(k * 31) % 100, cap=(16, 1, 2)[k % 3]))
+    return out
+
+
+def idle_scenarios(seed, quick):
+    """Long idle periods (ten minutes, an hour, a day) with nothing outstanding, an idle stream open
+    all the while: the next publish is delivered at once, nothing is re-ordered or delivered twice."""
+    out = []
+    for k in range(3 if quick else 8):
+        idle = (3600_000, 86_400_000, 600_001, 1_000_000)[k % 4]
+        steps = [call(1, op="CreateTopic", name=T1), call(1, op="CreateSub", name=S1, topic=T1, ack=10),
+                 call(1, op="Publish", topic=T1, msgs=[{"p": "id%d-a" % k}, {"p": "id%d-b" % k}]),
+                 call(2, op="Pull", sub=S1, max=10, ri=True), call(2, op="Ack", sub=S1, acks=[{"d": 1}, {"d": 2}]),
+                 {"do": "sopen", "h": "s", "c": 3, "sub": S1, "max": 5}, {"do": "settle"},
+                 {"do": "advance", "ms": idle},
+                 call(2, op="Publish", topic=T1, msgs=[{"p": "id%d-c" % k}]), {"do": "settle"}, {"do": "quiet"},
+                 {"do": "ssend", "h": "s", "acks": [{"d": 3}]}, {"do": "settle"}, {"do": "quiet"},
+                 {"do": "advance", "ms": idle // 2},
+                 call(2, op="Publish", topic=T1, msgs=[{"p": "id%d-d" % k}, {"p": "id%d-e" % k}]), {"do": "settle"}, {"do": "quiet"},
+                 {"do": "ssend", "h": "s", "acks": [{"d": 4}], "mods": [[{"d": 5}, 0]]}, {"do": "settle"}, {"do": "quiet"},
+                 {"do": "ssend", "h": "s", "acks": [{"d": 6}]}, {"do": "settle"},
+                 {"do": "sabandon", "h": "s"}, {"do": "drain", "c": 9}]
+        out.append(scn("idle-%d" % k, steps, seed=seed * 100 + k))
+    return out
+
+
+def stream_life_scenarios(seed, quick):
+    """The StreamingPull life cycle: opened on a subscription that has outstanding deliveries, two
+    streams of one subscription, request side closed first, abandoned right after a delivery."""
+    out = []
+    for k in range(4 if quick else 12):
+        steps = [call(1, op="CreateTopic", name=T1), call(1, op="CreateSub", name=S1, topic=T1, ack=10),
+                 call(1, op="Publish", topic=T1, msgs=[{"p": "sl%d-%d" % (k, j)} for j in range(4)]),
+                 call(2, op="Pull", sub=S1, max=2, ri=True), {"do": "advance", "ms": 500 * (k % 3)},
+                 {"do": "sopen", "h": "a", "c": 3, "sub": S1, "max": 1}, {"do": "settle"},
+                 {"do": "sopen", "h": "b", "c": 4, "sub": S1, "max": 5}, {"do": "settle"}, {"do": "quiet"}]
+        if k % 4 == 0:
+            steps += [{"do": "sclose", "h": "a"}, {"do": "settle"}]
+        if k % 4 == 1:
+            steps += [{"do": "sabandon", "h": "b"}]
+        steps += [call(1, op="Publish", topic=T1, msgs=[{"p": "sl%d-late%d" % (k, j)} for j in range(2)]), {"do": "settle"}, {"do": "quiet"},
+                  {"do": "ssend", "h": "a", "acks": [{"d": 3}]}, {"do": "settle"},
+                  {"do": "advance", "ms": 10300}, {"do": "quiet"}, {"do": "advance", "ms": 10300}, {"do": "quiet"},
+                  {"do": "sabandon", "h": "a"}]
+        if k % 4 != 1:
+            steps.append({"do": "sabandon", "h": "b"})
+        steps.append({"do": "drain", "c": 9})
+        out.append(scn("stream-life-%d" % k, steps, seed=seed * 100 + k, cap=(16, 1, 2)[k % 3]))
+    return out
+
+
 def stream_ctrl_scenarios(seed, quick):
     """Control messages of every shape on an open StreamingPull: empty (keep-alive), acks only,
     modifications only, both in one message, several in a row; after each the server comes to rest
@@ -541,7 +621,7 @@ def plan_c03(prop, tier, seed, t0):
                 MaxOps=6)
     return core_check(prop, tier, seed, t0, over, explore=[("data", 48, 2000), ("consumers", 64, 3000)], caps=(16, 1, 2),
                       extra_scenarios=lambda quick, sd: cancel_scenarios(sd, kinds={"Pull", "Ack", "ModAck", "ModAck30"}, quick=quick)
-                      + stream_ctrl_scenarios(sd, quick),
+                      + stream_ctrl_scenarios(sd, quick) + twins_scenarios(sd, quick) + stream_life_scenarios(sd, quick),
                       thorough={"mc": dict(MaxOps=7, MaxMsgs=3)})
 
 
@@ -605,7 +685,7 @@ def plan_c04(prop, tier, seed, t0):
     phases = tuple(range(0, 100, 7)) + (99, 1)
     return core_check(prop, tier, seed, t0, over, explore=[("data", 32, 1000)], phases=phases,
                       extra_scenarios=lambda quick, sd: deadline_probe_scenarios(sd, quick) + ack_deadline_scenarios(sd, quick)
-                      + orphan_scenarios(sd, quick),
+                      + orphan_scenarios(sd, quick) + twins_scenarios(sd, quick) + idle_scenarios(sd, quick),
                       adv_extra=(0, 101, 1, 99), thorough={"mc": dict(MaxOps=7, MaxMsgs=3, MaxNow=8)})
 
 
@@ -1493,7 +1573,8 @@ def c06_mc(work, quick, violations):
 def plan_c06(prop, tier, seed, t0):
     n = 30 if tier == "quick" else 600
     # ... plus the stream control family: messages given back by a control message reach a waiting consumer
-    return scenario_check(prop, tier, seed, t0, c06_scenarios(n, seed) + stream_ctrl_scenarios(seed, tier == "quick"), mc=c06_mc,
+    return scenario_check(prop, tier, seed, t0, c06_scenarios(n, seed) + stream_ctrl_scenarios(seed, tier == "quick")
+                          + stream_life_scenarios(seed, tier == "quick") + idle_scenarios(seed, tier == "quick"), mc=c06_mc,
                           explore=[("consumers", 64, 3000), ("data", 32, 1000)])
 
 
